@@ -12,6 +12,7 @@ package simrt
 import (
 	"fmt"
 	"hash/fnv"
+	"os"
 	"reflect"
 	"runtime"
 	"runtime/debug"
@@ -48,6 +49,8 @@ type G struct {
 	prio     int64
 	daemon   bool
 	sim      *Sim
+	starved  bool // strategy "starve": delayed until nobody else can run
+	stalls   int  // clock stalls spent while starved at the current site
 }
 
 // Violation is one oracle failure.
@@ -70,6 +73,7 @@ type Config struct {
 	MaxSteps  int64
 	Horizon   time.Duration // max simulated duration
 	LogEvents bool
+	Focus     []string // site-name fragments preferred by the "starve" strategy
 }
 
 // Result is what a run returns.
@@ -93,12 +97,12 @@ type Result struct {
 type Sim struct {
 	cfg Config
 
-	mu      sync.Mutex
-	gs      []*G
-	notify  chan struct{}
-	nextGID int
-	scanFrom int
-	active   []*G
+	mu        sync.Mutex
+	gs        []*G
+	notify    chan struct{}
+	nextGID   int
+	scanFrom  int
+	active    []*G
 	nLockWait int
 
 	rng       *prng
@@ -119,8 +123,14 @@ type Sim struct {
 	stepCap    bool
 	stuck      []string
 
-	lastG     *G
-	pctPoints map[int64]bool
+	lastG       *G
+	pctPoints   map[int64]bool
+	starveMod   uint64 // strategy "starve": sites whose hash is starveSel modulo starveMod delay their goroutine
+	starveSel   uint64
+	shortStall  bool
+	starveOrder int
+	starveFocus []string
+	starveSub   string // development aid: SIM_STARVE_SITE=<substring> starves exactly the matching sites
 
 	touch     anyTable
 	touchNext int64
@@ -200,6 +210,26 @@ func (g *G) park(s *Sim, site string, st gstate) {
 	}
 	g.site = site
 	s.siteHits.add(site, 1)
+	if s.starveMod != 0 && st != gLockWait {
+		// FNV-1a of the site name
+		h := uint64(14695981039346656037)
+		for i := 0; i < len(site); i++ {
+			h = (h ^ uint64(site[i])) * 1099511628211
+		}
+		sel := (h>>7)%s.starveMod == s.starveSel
+		if sel && len(s.starveFocus) > 0 {
+			sel = false
+			for _, f := range s.starveFocus {
+				if strings.Contains(site, f) {
+					sel = true
+				}
+			}
+		}
+		if (s.starveSub == "" && sel) || (s.starveSub != "" && strings.Contains(site, s.starveSub)) {
+			g.starved = true
+			g.stalls = 0
+		}
+	}
 	s.ulk()
 	// the scheduler's own hand-offs must not create happens-before edges
 	// between simulated goroutines: hide them from the race detector
@@ -951,6 +981,21 @@ func runInBubble(cfg Config, main func()) Result {
 			s.pctPoints[int64(s.rng.Intn(400))] = true
 		}
 	}
+	if cfg.Strategy == "starve" {
+		s.starveSub = os.Getenv("SIM_STARVE_SITE")
+		s.starveMod = []uint64{8, 32, 32, 128}[s.rng.Intn(4)]
+		s.starveSel = uint64(s.rng.Intn(int(s.starveMod)))
+		s.starveOrder = s.rng.Intn(3)
+		if len(cfg.Focus) > 0 && s.rng.Intn(2) == 0 {
+			// delay goroutines inside the mechanism under check only
+			s.starveFocus = cfg.Focus
+			s.starveMod = []uint64{1, 1, 2, 4}[s.rng.Intn(4)]
+			s.starveSel = uint64(s.rng.Intn(int(s.starveMod)))
+		}
+		if v := os.Getenv("SIM_STARVE_ORDER"); v != "" {
+			s.starveOrder = int(v[0] - '0')
+		}
+	}
 	cur = s
 	defer func() { cur = nil; runtime.SimSetSelectSeed(0) }()
 	// warm up lazily initialised library state from the root goroutine
@@ -1082,7 +1127,12 @@ func (s *Sim) loop() {
 		v := s.decide(opts, func() int { return s.pick(parked, allowStall) })
 		if v == n {
 			// stall everybody while the clock runs
-			d := s.decide(len(stallDeltas), func() int { return s.rng.Intn(len(stallDeltas)) })
+			nd := len(stallDeltas)
+			if s.shortStall {
+				nd = 4 // a delayed goroutine waits up to 1 s of simulated time per stall
+				s.shortStall = false
+			}
+			d := s.decide(nd, func() int { return s.rng.Intn(nd) })
 			s.lk()
 			s.addEvent("stall " + stallDeltas[d].String())
 			s.counters.add("sched.stall", 1)
@@ -1095,6 +1145,7 @@ func (s *Sim) loop() {
 		s.addEvent("run g" + strconv.Itoa(g.id) + " " + g.site)
 		g.state = gRunning
 		g.lastRun = s.step
+		g.starved = false
 		s.ulk()
 		if s.lastG != nil && s.lastG != g {
 			s.lk()
@@ -1154,6 +1205,50 @@ func (s *Sim) pick(parked []*G, allowStall bool) int {
 			}
 		}
 		return s.rng.Intn(n)
+	case "starve":
+		// a goroutine parked at a selected site waits until nobody else can run; then, now and
+		// again, even for the next timers (so that a sleeper can overtake it inside its operation)
+		free := 0
+		for _, g := range parked {
+			if !g.starved {
+				free++
+			}
+		}
+		if free > 0 {
+			k := s.rng.Intn(free)
+			for i, g := range parked {
+				if !g.starved {
+					if k == 0 {
+						return i
+					}
+					k--
+				}
+			}
+		}
+		// everybody is delayed: release the one delayed first, the one delayed last, or any
+		best := 0
+		switch s.starveOrder {
+		case 0:
+			for i, g := range parked {
+				if g.lastRun < parked[best].lastRun {
+					best = i
+				}
+			}
+		case 1:
+			for i, g := range parked {
+				if g.lastRun > parked[best].lastRun {
+					best = i
+				}
+			}
+		default:
+			best = s.rng.Intn(n)
+		}
+		if allowStall && parked[best].stalls < 4 && s.rng.Intn(4) != 0 {
+			parked[best].stalls++
+			s.shortStall = true
+			return n
+		}
+		return best
 	case "pct":
 		if s.pctPoints[s.step] && s.lastG != nil {
 			s.lastG.prio = -s.step // demote
